@@ -417,7 +417,7 @@ def build_strategy(name, data, case, seed=None, defaults=False):
     if defaults:
         # all-defaults configuration: only mandatory / structural params
         init = {k: v for k, v in init.items()
-                if k in ("classes", "method", "greedy_selection")}
+                if k in ("classes",)}
     cls = getattr(pool, e["cls"])
     qs = cls(missing_label=data["missing"], random_state=seed, **init)
     qk = {}
